@@ -249,9 +249,11 @@ func (root *Root) addTypes(types ...Type) error {
 			}
 			root.dirs.add(t)
 		} else {
-			if root.types.get(name) != nil {
-				// If a scalar, do not replace and do not complain.
-				if t.Rank() == rankScalar {
+			if cur := root.types.get(name); cur != nil {
+				// If a scalar that is defined again, do not replace and do
+				// not complain. A scalar with the name of a type of another
+				// kind is a duplicate like any other.
+				if t.Rank() == rankScalar && cur.Rank() == rankScalar {
 					continue
 				}
 				return fmt.Errorf("%w: %s is already in the schema", ErrDuplicate, name)
